@@ -30,3 +30,21 @@ CLAIMS["C09"] = (
     "candidate enumeration, per-candidate argmax and the greedy loop are tied to the code by exact correspondence (score table incl. both argmax columns, anomalies); an independent tie-tolerant oracle states the property directly.",
     "3/C09",
 )
+CLAIMS["C01"] = (
+    "Lean 4 proofs over the reals about translator-regenerated kernels (generated definition = closed form = direct definition) + numeric model/code correspondence",
+    "Theorems l2_optim_is_rss, l2_fixed_is_rss, gauss_optim_is_loglik, gauss_fixed_is_loglik, evaluate_row_independent (Skc/Props/C01.lean: closed forms on the prefix sums of ANY data column and ANY interval equal the direct definitions computed from the rows) and the L1 theorems gen_* in Skc/L1/L2Cost.lean, Skc/L1/Gauss.lean stating the same about the Lean definitions regenerated from /repo's kernels on every run.",
+    "trusted: the translator (per-element reading of NumPy broadcasting; validated on every run by comparing the Float instantiation of the generated kernels with evaluate, bit-identical so far), `truncate_below` read as max, col_cumsum modelled as psum. Not proved: floating-point rounding (bounded empirically at 1e-8 of the data scale); multivariate Gaussian cost (the code computes the definition directly; numeric comparison and the error contract only).",
+    "3/C01",
+)
+CLAIMS["C05"] = (
+    "Lean 4 proofs of the round trips and label semantics of position-based conversion models + exact model/code correspondence under five index types",
+    "Theorems coll_dense_sparse_roundtrip (any valid collective sparse output incl. adjacent / length-1 / end-touching intervals), cp_dense_sparse_roundtrip (any strictly increasing changepoints in [1,n-1]), cp_dense_label, coll_label_covered / coll_label_uncovered in Skc/Props/C05.lean, for all n and all valid outputs.",
+    "the models take no index argument (positions only): index-independence is by construction in the model and tied to the code by running it under RangeIndex (default / offset / stepped), DatetimeIndex, PeriodIndex; the subset (MVCAPA) conversions are modelled and tied by correspondence, their round trip is not yet proved; pandas itself is not modelled.",
+    "3/C05",
+)
+CLAIMS["C06"] = (
+    "Lean 4 proofs over the reals of the score identities and inequalities on closed forms and on translator-regenerated kernels + exact correspondence of the adapters on user-defined integer costs",
+    "Theorems cusum_sq_is_l2_change_score, l2_saving_is_cost_difference, l2_saving_nonneg, l2_optim_le_fixed, l2_split_never_increases (with the exact identity), gauss_optim_le_fixed_above_floor, gauss_split_never_increases_above_floor, changeScore_nonneg (Skc/Props/C06.lean) and gen_cusum_sq_eq_l2_change, gen_l2_saving_eq (L1, on the generated code).",
+    "the adapters' defining equations are their model (tied by exact correspondence on a user cost with an extra hyper-parameter depending on the multiset of rows, batch and single evaluation); multivariate-Gaussian log-det inequalities are NOT proved (numeric check only); Gaussian statements assume variance above the 1e-16 floor as the property does.",
+    "3/C06",
+)
